@@ -326,6 +326,34 @@ func c19RunPairs(t *vk.T, i int) {
 				if !bytes.Equal(f.Sum(), da) {
 					t.Violation("hash|fork-differs", "forking item by item differs from writing the sequence")
 				}
+				// state independence: a clone's writes stay in the clone, and reading a digest does not disturb the state
+				if len(p.a) >= 2 {
+					k := len(p.a) / 2
+					pre, _ := libDigest(p.a[:k])
+					o := hash.New()
+					for _, a := range p.a[:k] {
+						_ = o.WriteAny(a.Lib)
+					}
+					c := o.Clone()
+					for _, a := range p.a[k:] {
+						_ = c.WriteAny(a.Lib)
+					}
+					s1 := o.Sum()
+					_, _ = o.Digest().Read(make([]byte, 70))
+					s2 := o.Sum()
+					for _, a := range p.a[k:] {
+						_ = o.WriteAny(a.Lib)
+					}
+					t.Obs("state_independence_checks", 1)
+					switch {
+					case !bytes.Equal(s1, pre) || !bytes.Equal(s2, pre):
+						t.Violation("hash|clone-or-digest-disturbs-state", "after cloning (and writing to the clone) or reading a digest, the original state no longer hashes to the digest of its own prefix")
+					case !bytes.Equal(c.Sum(), da):
+						t.Violation("hash|clone-differs", "a clone continued with the remaining items differs from writing the whole sequence")
+					case !bytes.Equal(o.Sum(), da):
+						t.Violation("hash|sum-finalises-state", "writing the remaining items after Sum()/Digest() does not give the digest of the whole sequence")
+					}
+				}
 				continue
 			}
 			t.Obs("pairs_different", 1)
